@@ -23,6 +23,7 @@ PROPERTIES = ["C16"]
 ORDER = 10
 
 SIG = "batteries.ReplLockManager:stamp-reorder-mutex"
+SIG_OTHER = "batteries.ReplLockManager:mutex-broken"       # exclusion fails on this log for another reason
 U = 10
 
 
@@ -32,14 +33,17 @@ def replay_replicas(bat):
     rets = []
     for cmd in log[:2]:
         lc.apply_cmd(ra, cmd)
-    for cmd in log:
+    back = False
+    for i, cmd in enumerate(log):
         rets.append(lc.apply_cmd(rb, cmd))
+        if i == 2:
+            back = lc.table_of(rb) == [(1, 1, 101)]      # the lock time went back from 104 to 101
     now = 112
     a_holds = ra.isAcquired(lc.lock_name(1), lc.client_name(1), now)
     b_holds = rb.isAcquired(lc.lock_name(1), lc.client_name(2), now)
     obs = {"log": [lc.cmd_str(c) for c in log], "prefix_a": 2, "prefix_b": 4, "now": now,
            "table_a": lc.table_of(ra), "table_b": lc.table_of(rb), "returns_b": rets,
-           "a_considers_held": a_holds, "b_considers_held": b_holds}
+           "a_considers_held": a_holds, "b_considers_held": b_holds, "lock_time_moved_backwards": back}
     return (a_holds and b_holds), obs
 
 
@@ -112,13 +116,13 @@ def run(ctx):
     va, oa = replay_replicas(bat)
     vb, ob = replay_wrappers(bat)
     if va:
-        viols.append({"signature": SIG,
+        viols.append({"signature": SIG if oa["lock_time_moved_backwards"] else SIG_OTHER,
                       "what": "replica level: log %s, U=%d; at common time %d client 1 (replica after 2 entries, lock time 104) "
                               "and client 2 (replica after 4 entries, lock time 112) both get isAcquired=True; client 1 never released"
                               % (oa["log"], U, oa["now"]),
                       "replay": {"witness": "d19", "level": "replicas", "observed": oa}})
     if vb:
-        viols.append({"signature": SIG,
+        viols.append({"signature": SIG if oa["lock_time_moved_backwards"] else SIG_OTHER,
                       "what": "wrapper level: ReplLockManager a submitted %s (stamp 104 before stamp 101); a's replica applied %d "
                               "entries, b's %d; at t=%d a.isAcquired and b.isAcquired are both True, b was told True, a never released"
                               % (ob["submitted_by_a"], ob["applied_a"], ob["applied_b"], ob["now"]),
